@@ -146,10 +146,17 @@ type Gen struct {
 	next  basics.Round
 	byAdr map[basics.Address]*Acct
 	uniq  *uint64
+	bias  string // workload bias of this run (propBias[prop]); see kindRemap
 }
 
-func newGen(seed uint64, st *State, gh crypto.Digest, uniq *uint64) *Gen {
-	g := &Gen{r: rand.New(rand.NewPCG(seed, uint64(st.Round)+1)), st: st, proto: st.proto(), gh: gh, next: st.Round + 1, byAdr: map[basics.Address]*Acct{}, uniq: uniq}
+// propBias: property id -> workload bias name; kindRemap: bias name -> remapping of the transaction
+// kind draw (0..99, see the switch in one()). Observer files set both from init() to steer the
+// workload towards the mechanism their property is about.
+var propBias = map[string]string{}
+var kindRemap = map[string]func(g *Gen, kind int) int{}
+
+func newGen(seed uint64, st *State, gh crypto.Digest, uniq *uint64, bias string) *Gen {
+	g := &Gen{bias: bias, r: rand.New(rand.NewPCG(seed, uint64(st.Round)+1)), st: st, proto: st.proto(), gh: gh, next: st.Round + 1, byAdr: map[basics.Address]*Acct{}, uniq: uniq}
 	for _, a := range Accounts() {
 		g.byAdr[a.Addr] = a
 	}
@@ -268,6 +275,9 @@ func (g *Gen) base(t *txntest.Txn) *txntest.Txn {
 func (g *Gen) one() *txntest.Txn {
 	s := g.sender()
 	kind := g.n(100)
+	if f := kindRemap[g.bias]; f != nil {
+		kind = f(g, kind)
+	}
 	assets := g.assetIDs()
 	apps := g.appIDs()
 	switch {
